@@ -132,9 +132,14 @@ Definition check_event (ks : kspec) (c : float) (xs : list (list float)) (ys : l
       | None => false
       end
   | EClean gmin gmax before after =>
-      let st := clean FOps f_big f_nbig (mk_state ks xs before) in
-      feq st.(st_gmin) gmin && feq st.(st_gmax) gmax &&
-      srecs_eq (map of_sv st.(st_sv)) after
+      (* `clean` with the (gmin, gmax) the code had at that moment (they can be stale: the flag
+         recalculate_minmax_grad is not set by an insertion; the whole-fit replay reproduces that) *)
+      let st := clean FOps f_big f_nbig
+                  (mkSt (map (to_sv ks xs) before) 0 0 gmin gmax false) in
+      srecs_eq (map of_sv st.(st_sv)) after &&
+      (* every vector that was dropped had alpha = 0 *)
+      forallb (fun r : srec => let '(i, a, _, _, _) := r in
+                 PrimFloat.eqb a 0 || existsb (fun r' : srec => let '(j, _, _, _, _) := r' in N.eqb i j) after) before
   end.
 
 (* the whole trace: every event is an instance of the model's step, consecutive states chain *)
